@@ -18,7 +18,9 @@ func TestVerifC06(t *testing.T) {
 	r := vmon.Begin(t, "C06", "exploration")
 	rng := r.Rand("c06")
 	n := r.N(400, 20000)
-	regexKeys := []string{"~^live/(.+)$", "~^cam[0-9]+$", "~^(.+)$", "~^.*$", "all_others", "all", "~^a/\\.\\./b$", "~^\\.\\.$", "~^(a|b)/c$"}
+	regexKeys := []string{"~^live/(.+)$", "~^cam[0-9]+$", "~^(.+)$", "~^.*$", "all_others", "all", "~^a/\\.\\./b$", "~^\\.\\.$", "~^(a|b)/c$",
+		// expressions that are not anchored at both ends: a valid prefix / suffix / infix must not carry an invalid name
+		"~^cam[0-9]+", "~backup$", "~live", "~^a", "~(x|y)"}
 	accepted, rejected := 0, 0
 	for i := 0; i < n; i++ {
 		// a configuration: some static paths and some regular-expression paths
@@ -56,6 +58,10 @@ func TestVerifC06(t *testing.T) {
 		}
 		for _, k := range keys {
 			names = append(names, k, strings.TrimPrefix(k, "~"), k+"/..", "../"+k)
+		}
+		// valid-looking names with a traversal before / after them (they match expressions that are not anchored)
+		for _, base := range []string{"cam1", "cam12", "backup", "live", "a", "x", "live/a"} {
+			names = append(names, base+"/../../escaped", base+"/", base+" x", "../../escaped/"+base, "./"+base, base+"/../"+base, "/"+base)
 		}
 		for _, name := range names {
 			pc, _, err := FindPathConf(m, name)
